@@ -187,7 +187,10 @@ func runFiles(r *ev.Run, spaces []fileSpace, workers int, deadline time.Time) {
 		return nl || len(seq) < sp.maxLen || len(seq) <= 1
 	}
 	one := func(ji int, seq []int) {
-		for st := Style(0); st < NStyles; st++ {
+		for st := Style(0); st <= Wide; st++ {
+			if st == Wide && len(seq) > 2 {
+				continue
+			}
 			for _, nl := range []bool{true, false} {
 				if !inSpace(spaces[jobs[ji].space], seq, nl) {
 					continue
